@@ -198,6 +198,12 @@ class Typer:
             a = s.ty(at[1]); return ('size', a[1][0]) if a[0] == 'arr' and len(a[1]) == 1 else ('size', U('size'))
         if h in ('carried',): return unk('carried')
         if h in ('num', 'pow', 'floor', 'mod', 'sentinel'): return NUM
+        # an uninterpreted numpy function applied to terms: its arguments are typed all the same (their obligations count)
+        inner = [s.ty(x) for x in at[1:] if isinstance(x, tuple)]
+        if h in ('ravel', 'squeeze', 'flatten') and inner and inner[0][0] == 'arr':
+            keep = [a for a in inner[0][1] if a != ONE]
+            return ('arr', tuple(keep) if keep else (ONE,))
+        if h in ('asarray', 'array', 'ascontiguousarray', 'copy', 'nan_to_num', 'negative', 'float64', 'complex128') and inner: return inner[0]
         return unk(str(h))
 
     def iter_space(s, t):
@@ -685,8 +691,10 @@ class Typer:
                 return a
             return a if a[0] == 'arr' else b
         if tag == 'kw': return s.ty(k[3])
-        for a in k[2:]:
-            if isinstance(a, tuple): s.ty(a)
+        inner = [s.ty(a) for a in k[2:] if isinstance(a, tuple)]
+        if tag in ('np.ravel', 'np.squeeze') and inner and inner[0][0] == 'arr':
+            keep = [a for a in inner[0][1] if a != ONE]
+            return ('arr', tuple(keep) if keep else (ONE,))
         return unk('opq ' + str(tag))
 
     # ------------------------------------------------------------------ builds
